@@ -16,7 +16,7 @@
    All theorems quantify over ALL histories [ops] (induction over the list, no bound). *)
 From MptV Require Import Base.Mem C15.RefcountModel C15.RefcountSpec C15.RefcountCounter C15.RefcountInv
   C15.RefcountSteps C15.RefcountFr C15.RefcountOps C15.RefcountRun C15.RefcountAssign C15.RefcountRel C15.RefcountFrame
-  C15.RefcountSim C15.RefcountRefine.
+  C15.RefcountSim C15.RefcountRefine C15.ChainModel C15.ChainSpec C15.ChainInv C15.ChainOps C15.ChainSim.
 Local Open Scope N_scope.
 
 (* ---- the counter ---- *)
@@ -228,6 +228,87 @@ Theorem C15_assign_same_unchanged :
   exists s', p_conv s si d = Ok (s', OD) /\ hs s' = hs s /\ objs s' = objs s /\ pend s' = [].
 Proof. exact conv_same. Qed.
 
+(* ---- objects that OWN a reference to another object of their family (linked nodes) ----
+   C15/ChainModel.v transcribes reference<T> of core.h for a class with a member  reference<node> next :
+   [nobjs] (counter [ncnt], destroyed [ndead], owned handle [nnext]), slots [nhs], handles in locals [npend];
+   type::unref() at zero runs the destructor, which releases the owned handle — the destruction CASCADE [n_unref];
+   operator= RETAINS the new referent and THEN releases the old one ([n_assign_ptr], [n_assign_next]).
+   11 operations [nop]: set_instance(new), copy-assign, copy-construct, move, detach, set_instance(raw), drop, raw
+   addref/unref,  r[d]->next = r[s]  ([NSetNext], towards objects created earlier only: the harness guard keeps the
+   ownership graph acyclic) and  r[d] = r[s]->next  ([NNext]; s = d walks along a chain).
+   C15/ChainSpec.v is the specification: NO counter, NO destruction flag; created objects with the handle each owns
+   (never erased) + slots; [ctotal] = slots holding the object + EXISTING objects owning a handle on it, [calive] =
+   that number is not 0; a step only says what the target holds afterwards.  [CRef s ss]: the model state satisfies
+   the invariant (counter = number of handles, destroyed = no handle, owned handles point to older objects) with no
+   handle in a local, has the slots of [ss], and every existing object has in [ss] the record of its owned handle. *)
+
+(* STEP refinement, each of the 11 operations, from EVERY pair of related states: no fault (no use of a destroyed
+   object, the cascade terminates), the specification's output, related successors *)
+Theorem C15_chain_step_refines_spec :
+  forall s ss o, CRef s ss ->
+    exists s', nstep s o = Ok (s', snd (csstep ss o)) /\ CRef s' (fst (csstep ss o)).
+Proof. exact csim_step. Qed.
+
+(* related states are observed identically: every counter, every destruction flag, every owned handle of an
+   existing object, every slot, the result — and nothing is left for LeakSanitizer *)
+Theorem C15_chain_refinement_preserves_observation :
+  forall s ss, CRef s ss ->
+    (forall t, csobserve ss t = nstrip (nobserve s t)) /\ csleaked ss = nleaked s /\
+    (forall o, N.of_nat (ctotal ss o) = nheld s o).
+Proof.
+  exact (fun s ss RF => conj (cobserve_ref s ss RF) (conj (cleaked_ref s ss RF)
+           (fun o => eq_trans (f_equal N.of_nat (ctotal_ref s ss RF o)) (eq_sym (nheld_NH s o))))).
+Qed.
+
+(* HISTORY refinement: for every history the model's observation sequence is the one the specification derives by
+   its own steps; the final states are related; no history faults *)
+Theorem C15_chain_history_refines_spec :
+  forall ops,
+    map nstrip (fst (nrun ninit ops)) = fst (csrun csinit ops) /\
+    exists s, nfinal ninit ops = Some s /\ CRef s (snd (csrun csinit ops)).
+Proof. exact chain_history_l. Qed.
+
+Theorem C15_chain_history_never_faults :
+  forall ops, exists s, nfinal ninit ops = Some s /\ ~ In NObsFault (fst (nrun ninit ops)).
+Proof. exact chain_never_faults_l. Qed.
+
+(* every history: an object is destroyed EXACTLY when its last handle goes — a handle OWNED by an existing object is
+   a handle like a slot — never earlier, never later; the counter of an existing object is the number of its
+   handles and it still owns what the specification says *)
+Theorem C15_chain_destroyed_iff_last_handle_dropped :
+  forall ops, exists s, nfinal ninit ops = Some s /\
+    length (nobjs s) = length (cnx (snd (csrun csinit ops))) /\
+    forall o x, nth_error (nobjs s) o = Some x ->
+      ndead x = negb (calive (snd (csrun csinit ops)) o) /\
+      (ndead x = true <-> ctotal (snd (csrun csinit ops)) o = 0%nat) /\
+      (ndead x = false -> ncnt x = N.of_nat (ctotal (snd (csrun csinit ops)) o) /\
+                          csnext (snd (csrun csinit ops)) o = nnext x).
+Proof. exact chain_destroyed_iff_l. Qed.
+
+(* the step along a chain  r[d] = r[d].instance()->next  from ANY related state: afterwards the slot holds the
+   successor [b] and [b] EXISTS — also when the only handle on [b] was the one the old head owned and the old head
+   loses its last handle in this very assignment (it is destroyed, its owned handle released: the count of [b] goes
+   2 -> 1, never through 0); the state refines "slot d := b" *)
+Theorem C15_chain_step_keeps_successor :
+  forall s ss d o x b,
+  CRef s ss -> (bank d =? 3)%nat = true -> nslot s d = Some o -> nth_error (nobjs s) o = Some x -> nnext x = Some b ->
+  cshareable ss b = true ->
+  exists s', nstep s (NNext d d) = Ok (s', OD) /\ CRef s' (csput ss d (Some b)) /\ nslot s' d = Some b /\
+    exists xb, nth_error (nobjs s') b = Some xb /\ ndead xb = false /\ 0 < ncnt xb.
+Proof. exact chain_step_along_l. Qed.
+
+(* the destruction cascade: releasing a handle held in a local, from any state that satisfies the invariant, does
+   not fault on [o + 1] levels of fuel, restores the invariant, touches no slot, consumes exactly that handle and
+   changes the owned handle of no object that exists afterwards *)
+Theorem C15_chain_release_cascade :
+  forall f s o, NInv s -> In o (npend s) -> (o < f)%nat ->
+    exists s', n_unref f s o = Ok s' /\ NInv s' /\ nhs s' = nhs s /\ npend s' = remove_one o (npend s) /\ nframe s s'.
+Proof. exact n_unref_ok. Qed.
+
+Theorem C15_chain_step_preserves_invariant :
+  forall s o, NGood s -> exists s' t, nstep s o = Ok (s', t) /\ NGood s'.
+Proof. exact chain_step_ok_l. Qed.
+
 (* ---- non-vacuity ---- *)
 Example C15_ex_raise_at_max : raise CMAX = (CMAX, 0) /\ raise 0 = (0, 0) /\ lower 0 = (0, CMAX)
                               /\ raise (CMAX - 1) = (CMAX, CMAX) /\ lower 1 = (0, 0).
@@ -327,6 +408,44 @@ Example C15_ex_refusal_and_assign_states :
   end.
 Proof. vm_compute. repeat split. Qed.
 
+(* linked nodes: chain 2 -> 1 -> 0 built from the tail, held by slot 12 alone; three steps  cur = cur->next : each
+   destroys exactly the old head, the successor's count stays 1; last column: the vtable calls (retain BEFORE release) *)
+Example C15_ex_chain_walk :
+  map (fun r => match r with NObs t d h e => Some (t, d, nth 12 h None, e) | NObsFault => None end)
+      (fst (nrun ninit [NNew 12; NNew 13; NSetNext 12 13; NMove 13 12; NNew 13; NSetNext 12 13; NMove 13 12;
+                        NNext 12 12; NNext 12 12; NNext 12 12]%nat))
+  = [Some (OD, [NLive 1 None], Some 0, []);
+     Some (OD, [NLive 1 None; NLive 1 None], Some 0, []);
+     Some (OD, [NLive 2 None; NLive 1 (Some 0)], Some 0, [EAdd 0]);
+     Some (OD, [NLive 1 None; NLive 1 (Some 0)], Some 1, [EUnr 0]);
+     Some (OD, [NLive 1 None; NLive 1 (Some 0); NLive 1 None], Some 1, []);
+     Some (OD, [NLive 1 None; NLive 2 (Some 0); NLive 1 (Some 1)], Some 1, [EAdd 1]);
+     Some (OD, [NLive 1 None; NLive 1 (Some 0); NLive 1 (Some 1)], Some 2, [EUnr 1]);
+     Some (OD, [NLive 1 None; NLive 1 (Some 0); NDead], Some 1, [EAdd 1; EUnr 2; EDel 2; EUnr 1]);
+     Some (OD, [NLive 1 None; NDead; NDead], Some 0, [EAdd 0; EUnr 1; EDel 1; EUnr 0]);
+     Some (OD, [NDead; NDead; NDead], None, [EUnr 0; EDel 0])]%nat.
+Proof. vm_compute. reflexivity. Qed.
+
+(* the ORDER inside operator= is what the theorems are about: with the two halves exchanged (release the old
+   referent, then retain the new one) the step along the chain 1 -> 0 uses the destroyed object 0 — a [Fault];
+   the transcribed order ends with slot 12 holding object 0, count 1, object 1 destroyed.  The hypotheses of
+   C15_chain_step_keeps_successor are met by this reachable state *)
+Example C15_ex_release_first_faults :
+  match nfinal ninit [NNew 12; NNew 13; NSetNext 12 13; NMove 13 12]%nat with
+  | Some s =>
+      nslot s 12%nat = Some 1%nat /\ csnext (nabs s) 1%nat = Some 0%nat /\ cshareable (nabs s) 0%nat = true /\
+      n_assign_ptr_release_first s (Some 0%nat) 12%nat = Fault /\
+      match n_assign_ptr s (Some 0%nat) 12%nat with
+      | Ok s' => map ndisp_obj (nobjs s') = [NLive 1 None; NDead] /\ nslot s' 12%nat = Some 0%nat
+      | _ => False
+      end
+  | None => False
+  end.
+Proof. vm_compute. repeat split. Qed.
+
+Example C15_ex_chain_refines_init : CRef ninit csinit.
+Proof. exact CRef_init. Qed.
+
 Print Assumptions C15_raise_refuses_zero_and_max.
 Print Assumptions C15_lower_returns_remaining.
 Print Assumptions C15_counter_refines_spec.
@@ -349,3 +468,11 @@ Print Assumptions C15_step_preserves_invariant.
 Print Assumptions C15_assign_releases_old_once_retains_new_once.
 Print Assumptions C15_assign_refused_unchanged.
 Print Assumptions C15_assign_same_unchanged.
+Print Assumptions C15_chain_step_refines_spec.
+Print Assumptions C15_chain_refinement_preserves_observation.
+Print Assumptions C15_chain_history_refines_spec.
+Print Assumptions C15_chain_history_never_faults.
+Print Assumptions C15_chain_destroyed_iff_last_handle_dropped.
+Print Assumptions C15_chain_step_keeps_successor.
+Print Assumptions C15_chain_release_cascade.
+Print Assumptions C15_chain_step_preserves_invariant.
